@@ -2912,40 +2912,28 @@ func latestClockOnlyOrdersTheQueue(c *Ctx, r *Report, rule string) {
 func workerSlotsArePositive(c *Ctx, r *Report, rule string) {
 	p := c.P
 	n := 0
-	for _, fn := range p.Fns {
-		if fn.Body == nil || fn.Pkg.PkgPath != p.pkgPath("entry") {
-			continue
-		}
-		fn := fn
-		var sites []*ast.CallExpr
-		walkNoLit(fn.Body, func(nd ast.Node) bool {
-			if call, ok := nd.(*ast.CallExpr); ok {
-				if cf := p.Callee(fn, call); cf != nil && cf.Name() == "NewWeighted" && cf.Pkg() != nil && strings.HasSuffix(cf.Pkg().Path(), "sync/semaphore") {
-					sites = append(sites, call)
-				}
+	keyIn := func(fn *Fn, e ast.Expr) string {
+		e = ast.Unparen(e)
+		for {
+			cv, ok := e.(*ast.CallExpr)
+			if !ok || len(cv.Args) != 1 {
+				break
 			}
-			return true
-		})
-		if len(sites) == 0 {
-			continue
-		}
-		keyOf := func(e ast.Expr) string {
-			e = ast.Unparen(e)
-			for {
-				cv, ok := e.(*ast.CallExpr)
-				if !ok || len(cv.Args) != 1 {
-					break
-				}
-				if tv, ok := fn.Pkg.TypesInfo.Types[cv.Fun]; !ok || !tv.IsType() {
-					break
-				}
-				e = ast.Unparen(cv.Args[0]) // a conversion
+			if tv, ok := fn.Pkg.TypesInfo.Types[cv.Fun]; !ok || !tv.IsType() {
+				break
 			}
-			if _, k, ok := p.PathKey(fn, e); ok {
-				return k
-			}
-			return ""
+			e = ast.Unparen(cv.Args[0]) // a conversion
 		}
+		if _, k, ok := p.PathKey(fn, e); ok {
+			return k
+		}
+		return ""
+	}
+	// posFlow: must-facts "pos|<path>" — the integer at that path is positive. Helpers that fill defaults into the
+	// structure they are handed are summarised by what holds at all their exits (one level).
+	var posFlow func(fn *Fn, depth int) *Flow
+	posFlow = func(fn *Fn, depth int) *Flow {
+		keyOf := func(e ast.Expr) string { return keyIn(fn, e) }
 		fl := &Flow{P: p, Fn: fn, Entry: Facts{}}
 		fl.Edge = func(cond ast.Expr, taken bool, f Facts) {
 			for _, a := range splitCond(cond, taken) {
@@ -2988,10 +2976,69 @@ func workerSlotsArePositive(c *Ctx, r *Report, rule string) {
 							}
 						}
 					}
+				case *ast.CallExpr:
+					if depth >= 1 {
+						return true
+					}
+					cf := p.Callee(fn, x)
+					if cf == nil || !p.firstParty(cf.Pkg()) {
+						return true
+					}
+					h := p.ByObj[cf]
+					if h == nil || h.Body == nil || h == fn {
+						return true
+					}
+					var atExits Facts
+					hf := posFlow(h, depth+1)
+					hf.Run()
+					hf.Exits(func(_ *cfgBlk, _ *ast.ReturnStmt, at Facts) {
+						if atExits == nil {
+							atExits = at.Clone()
+							return
+						}
+						for k := range atExits {
+							if !at[k] {
+								delete(atExits, k)
+							}
+						}
+					})
+					for i, a := range x.Args {
+						ak := keyOf(a)
+						par := paramObjAny(h, i)
+						if ak == "" || par == nil {
+							continue
+						}
+						pk := "pos|" + p.ID(par) + "."
+						for k := range atExits {
+							if strings.HasPrefix(k, pk) {
+								f["pos|"+ak+"."+strings.TrimPrefix(k, pk)] = true
+							}
+						}
+					}
 				}
 				return true
 			})
 		}
+		return fl
+	}
+	for _, fn := range p.Fns {
+		if fn.Body == nil || fn.Pkg.PkgPath != p.pkgPath("entry") {
+			continue
+		}
+		fn := fn
+		var sites []*ast.CallExpr
+		walkNoLit(fn.Body, func(nd ast.Node) bool {
+			if call, ok := nd.(*ast.CallExpr); ok {
+				if cf := p.Callee(fn, call); cf != nil && cf.Name() == "NewWeighted" && cf.Pkg() != nil && strings.HasSuffix(cf.Pkg().Path(), "sync/semaphore") {
+					sites = append(sites, call)
+				}
+			}
+			return true
+		})
+		if len(sites) == 0 {
+			continue
+		}
+		fl := posFlow(fn, 0)
 		fl.Run()
 		fl.Visit(func(_ *cfgBlk, nd ast.Node, before Facts) {
 			walkNoLit(nd, func(m ast.Node) bool {
@@ -3004,7 +3051,7 @@ func workerSlotsArePositive(c *Ctx, r *Report, rule string) {
 						continue
 					}
 					n++
-					k := keyOf(call.Args[0])
+					k := keyIn(fn, call.Args[0])
 					v, isConst := p.constInt(fn, call.Args[0])
 					r.Check((isConst && v > 0) || (k != "" && before["pos|"+k]), rule, r.Key(rule, fn, "slots-positive", ""), call.Pos(),
 						"the weight of the worker semaphore is known to be positive here",
